@@ -56,14 +56,16 @@ def transfer (remote : Bytes) (maxReq chunk : Nat) : Nat → Bytes → List RdOu
     | .ok (d, plan') => if d.isEmpty then .ok loc else transfer remote maxReq chunk fuel (loc ++ d) plan'
 
 /-- `getfo(prefetch=False)`: stat, open, transfer (close errors are swallowed);
-    `get` additionally compares the local file's size with the count `getfo` returned -/
-def getfo (remote : Bytes) (maxReq chunk statCode openCode : Nat) (plan : List RdOut) (fuel : Nat) : Res :=
+    `get` additionally compares the local file's size with the count `getfo` returned.
+    `reported` = the size the server's STAT answer claims (`file_size`): it is handed to the callback (and to
+    `prefetch`), and has no say in when the copy loop ends — that is decided by the source's read() alone -/
+def getfo (remote : Bytes) (maxReq chunk statCode openCode : Nat) (plan : List RdOut) (fuel : Nat) (_reported : Nat := 0) : Res :=
   if statCode ≠ 0 then .raised statCode
   else if openCode ≠ 0 then .raised openCode
   else transfer remote maxReq chunk fuel [] plan
 
-def get (remote : Bytes) (maxReq chunk statCode openCode : Nat) (plan : List RdOut) (fuel : Nat) : Res :=
-  match getfo remote maxReq chunk statCode openCode plan fuel with
+def get (remote : Bytes) (maxReq chunk statCode openCode : Nat) (plan : List RdOut) (fuel : Nat) (reported : Nat := 0) : Res :=
+  match getfo remote maxReq chunk statCode openCode plan fuel reported with
   | .ok b => if b.length ≠ b.length then .raised 2000 else .ok b   -- "size mismatch in get!": local size vs bytes written
   | r => r
 
